@@ -54,6 +54,21 @@ BACKEND = {
 
 def replay(p):
     what = p['what']
+    if what == 'kraus_back':
+        din, dout = p['din'], p['dout']
+        D = din * dout
+        g = np.random.default_rng(3)
+        for r in list(range(0, D + 1)) * 3:
+            M = g.normal(size=(D, r)) + 1j * g.normal(size=(D, r))
+            C = M @ M.conj().T if r else np.zeros((D, D), dtype=complex)
+            K = ch.choi_op_to_kraus_op(C, din)
+            back = ch.kraus_op_to_choi_op(K) if K.shape[0] else np.zeros((D, D))
+            rho = g.normal(size=(din, din)) + 1j * g.normal(size=(din, din))
+            a = ch.apply_kraus_op(K, rho) if K.shape[0] else np.zeros((dout, dout))
+            b = ch.apply_choi_op(C, rho)
+            if K.shape[1:] != (dout, din) or K.shape[0] != r or not H.close(back, C, 1e-8) or not H.close(a, b, 1e-8):
+                return True, f'choi_op_to_kraus_op (din={din}, dout={dout}, rank {r}): Kraus operators obtained back do not reproduce the Choi operator / the channel action'
+        return False, 'Kraus form obtained back reproduces the channel'
     if what == 'backend':
         arrs = [H.from_payload_cx(p, k) for k in p['names']]
         bad, msg = T.replay_backend(BACKEND[p['fn']], arrs)
@@ -109,7 +124,7 @@ def run(chk):
            'numqi.channel.hf_channel_to_choi_op', 'numqi.channel.choi_op_to_bloch_map', 'numqi.channel.hf_dephasing_kraus_op',
            'numqi.channel.hf_depolarizing_kraus_op', 'numqi.channel.hf_amplitude_damping_kraus_op', 'numqi.gellmann.matrix_to_gellmann_basis')
     chk.register_replayer('c12', replay)
-    chk.out_of_claim('choi_op_to_kraus_op / super_op_to_kraus_op (eigh); trace distance, fidelity, entropies, relative entropy and every monotonicity statement (eigen-decompositions, logarithms); torch backend of functions other than kraus_op_to_choi_op / apply_choi_op / apply_kraus_op / apply_super_op (the others are NumPy-only code)')
+    chk.out_of_claim('the eigen-decomposition inside choi_op_to_kraus_op (np.linalg.eigh enters by its contract C = V diag(lambda) V^dag; eigenvalues strictly between 0 and zero_eps are dropped by design: claimed for dropped eigenvalues equal to 0); trace distance, fidelity, entropies, relative entropy and every monotonicity statement (eigen-decompositions, logarithms); torch backend of functions other than kraus_op_to_choi_op / apply_choi_op / apply_kraus_op / apply_super_op (the others are NumPy-only code)')
     sizes = [(din, dout, N) for din in (1, 2, 3) for dout in (1, 2, 3) for N in (1, 2, 3)]
     if quick:
         sizes = [s for s in sizes if s[0] * s[1] * s[2] <= 8 or s in ((3, 2, 2), (2, 3, 2), (3, 3, 1))]
@@ -168,6 +183,74 @@ def run(chk):
                 for i, (x, y) in enumerate(zip(H.elems(lhs), H.elems(rhs))):
                     chk.add(f'Bloch(channel(rho))[{i}] == A.Bloch(rho)+b ' + cfg, ctx.facts + [tr1], H.eq_sc(x, y), key='choi_op_to_bloch_map',
                             replay=('c12', lambda m, K=K, rh=rh: H.payload_cx(m, {'K': K, 'rho': rh}, what='bloch')))
+    # ---- Kraus form obtained back from a Choi operator (np.linalg.eigh by contract): reproduces the Choi operator and the channel action
+    chk.fn('numqi.channel.choi_op_to_kraus_op', 'numqi.channel.super_op_to_kraus_op')
+    chk.stub('np.linalg.eigh(C) -> symbolic (lambda ascending, V) with the contract C == V diag(lambda) V^dag entrywise (hypothesis of the composition claims); the number of eigenvalues below zero_eps is explored case by case; eigenvalues parametrised as t_n^2 (positive semidefinite Choi operator), np.sqrt(t_n^2) -> t_n')
+    for din, dout in ((1, 2), (2, 1), (2, 2)) if quick else ((1, 2), (2, 1), (2, 2), (1, 3), (2, 3), (3, 2)):
+        for via_super in (False, True) if (din, dout) == (2, 2) or not quick else (False,):
+            chk.configurations += 1
+            D = din * dout
+            tag = f'kb{din}{dout}{int(via_super)}'
+            C = H.herm_array('c' + tag, D)
+            # eigenvalues of a Choi operator of a CP map are >= 0: lambda_n = t_n^2 with t_n >= 0 symbolic, so that sqrt(lambda_n) = t_n is exact (no radical atoms in the identities)
+            tt = [S.sc_var(f't{tag}_{j}') for j in range(D)]
+            lam = [t_ * t_ for t_ in tt]
+            root_of = {l_.re.id: t_ for l_, t_ in zip(lam, tt)}
+            V = H.cx_array('v' + tag, (D, D))
+            rho = H.cx_array('r' + tag, (din, din))
+
+            def sqrt_stub(x, root_of=root_of):
+                if isinstance(x, A.SymArray):
+                    return A.wrap(A._elementwise(lambda e: root_of.get(S.as_sc(e).re.id) or S.as_sc(e).sqrt(), x), np.float64)
+                return root_of.get(S.as_sc(x).re.id) or S.as_sc(x).sqrt() if A.is_sym_scalar(x) else np.sqrt(x)
+            fac = facade.make_np_facade(linalg={'eigh': lambda x, lam=lam, V=V: (A.sym_array(np.array(lam, dtype=object), np.float64), V)}, extra={'sqrt': sqrt_stub})
+            contract = [H.eq_sc(C[i, j], sum((lam[n] * S.as_sc(V[i, n]) * S.as_sc(V[j, n]).conjugate() for n in range(D)), SC(ir.ZERO))) for i in range(D) for j in range(i, D)]
+            pre = [(lam[i] <= lam[i + 1]).n for i in range(D - 1)] + [(t_ >= 0).n for t_ in tt]
+
+            def body(C=C, din=din, via_super=via_super):
+                if via_super:
+                    return ch.super_op_to_kraus_op(ch.choi_op_to_super_op(C, din))
+                return ch.choi_op_to_kraus_op(C, din)
+            try:
+                paths, st = H.run_paths(body, pre, np_facade=fac, feas_timeout_ms=2000, max_paths=64)
+            except S.EngineError as e:
+                chk.engine_error(f'choi_op_to_kraus_op {din}x{dout}', e)
+                continue
+            chk.add_path_stats(st)
+            rp = ('c12', {'what': 'kraus_back', 'din': din, 'dout': dout})
+            fn_name = 'super_op_to_kraus_op(choi_op_to_super_op(C))' if via_super else 'choi_op_to_kraus_op(C)'
+            for pi, path in enumerate(paths):
+                if path.status != 'return':
+                    chk.add(f'{fn_name} raises {type(path.value).__name__} [din={din},dout={dout}] (path {pi})', pre + path.pc + path.facts, ir.FALSE, key='choi_op_to_kraus_op raises', replay=rp)
+                    continue
+                K = path.value
+                with path.resume():
+                    k = D - K.shape[0]                      # number of dropped eigenvalues on this path
+                    ok = tuple(K.shape[1:]) == (dout, din) and 0 <= k <= D
+                    base = pre + path.pc + path.facts + [c for kk, c in path.side]
+                    if not ok:
+                        chk.add(f'{fn_name}: shape (n, dout, din) [din={din},dout={dout}] (path {pi})', [], ir.FALSE, key='choi_op_to_kraus_op shape', replay=rp)
+                        continue
+                    dropped0 = [H.eq_sc(lam[n], 0) for n in range(k)]
+                    with facade.patched():
+                        back = ch.kraus_op_to_choi_op(K) if K.shape[0] else np.zeros((D, D), dtype=object)
+                    kept = [[sum((lam[n] * S.as_sc(V[i, n]) * S.as_sc(V[j, n]).conjugate() for n in range(k, D)), SC(ir.ZERO)) for j in range(D)] for i in range(D)]
+                    bk = A.plain(back) if isinstance(back, A.SymArray) else back
+                    cidx = {}
+                    it = iter(contract)
+                    for i in range(D):
+                        for j in range(i, D):
+                            cidx[(i, j)] = next(it)
+                    for i in range(D):
+                        for j in range(i, D):
+                            a_ij = H.eq_sc(bk[i, j], kept[i][j])
+                            chk.add(f'kraus_op_to_choi_op({fn_name})[{i},{j}] == sum over the kept eigenpairs lambda_n v_n v_n^dag [din={din},dout={dout}, {k} dropped]', base, a_ij,
+                                    key='choi_op_to_kraus_op: Kraus form does not reproduce the Choi operator', replay=rp)
+                            chk.add(f'kraus_op_to_choi_op({fn_name})[{i},{j}] == C[{i},{j}] when the dropped eigenvalues are 0 (from the line above and the eigh contract) [din={din},dout={dout}, {k} dropped]',
+                                    [a_ij, cidx[(i, j)]] + dropped0, H.eq_sc(bk[i, j], C[i, j]), key='choi_op_to_kraus_op: Kraus form does not reproduce the Choi operator', replay=rp)
+                    herm_back = ir.band_all(H.eq_sc(bk[j, i], S.as_sc(bk[i, j]).conjugate()) for i in range(D) for j in range(i + 1, D))
+                    chk.add(f'kraus_op_to_choi_op({fn_name}) is Hermitian (lower triangle) [din={din},dout={dout}, {k} dropped]', base, herm_back, key='choi_op_to_kraus_op: Kraus form does not reproduce the Choi operator', replay=rp)
+                    chk.add(f'reach kraus_back [din={din},dout={dout}, {k} dropped]', base + dropped0, ir.TRUE, kind='reach')
     # ---- PyTorch branch == NumPy branch on the same symbolic operands (symnp.symtorch)
     trng = random.Random(chk.seed + 1)
     for din, dout, N in [s for s in sizes if s[0] * s[1] * s[2] <= (8 if quick else 18)]:
